@@ -124,17 +124,21 @@ func (w *World) defaultChoice() (Event, bool) {
 		if len(n.AppendQ) > 0 {
 			return Event{Kind: EvAppend, Node: id}, true
 		}
-		if len(n.ApplyQ) > 0 {
+		if len(n.ApplyQ) > 0 && !n.ApplyPaused {
 			return Event{Kind: EvApply, Node: id}, true
 		}
 	}
-	if len(w.Net) > 0 {
-		best := 0
-		for i := range w.Net {
-			if w.Net[i].Seq < w.Net[best].Seq {
-				best = i
-			}
+	best := -1
+	for i := range w.Net {
+		// delayed messages wait until the script has ended
+		if w.Net[i].Delayed && w.PC < len(w.Sc.Script) {
+			continue
 		}
+		if best < 0 || w.Net[i].Seq < w.Net[best].Seq {
+			best = i
+		}
+	}
+	if best >= 0 {
 		// translate to the index among distinct messages
 		d := w.Distinct()
 		for k, pos := range d {
